@@ -455,3 +455,43 @@ def divide_every_chunk(rep, prog, rule, floor=6):
                         "shortcut before %s): pixels of that chunk keep their colour although the "
                         "division would have produced 0 for alpha 0" % (g.name, short(stores[0].name)))
     rep.floor(rule, "chunk bodies of in-place divisions", n, floor)
+
+
+def tail_reached(rep, prog, rule, floor=4):
+    """the scalar tail of a staged SIMD column loop is reached whenever components remain"""
+    rep.rule(rule, "a SIMD vertical kernel that finishes a row with the portable routine "
+             "(native::convolution_by_u8 / _u16 / _f32 for the last components) reaches that call on "
+             "every path from its entry to its return, except through an edge that tests the remaining "
+             "slice for emptiness: an early `return` placed between the stages (`if rest.len() < 4 { "
+             "return }`: 'nothing left for the last SIMD step') also skips the 1..3 components that only "
+             "the scalar tail handles, and they keep what the buffer held")
+    from ..cfg import find_path_consistent
+    n = 0
+    for f in sorted(prog.fns.values(), key=lambda x: x.id):
+        if f.kind == "closure" or not re.match(r"^convolution::vertical_\w+::(sse4|avx2|neon|wasm32)::", f.name):
+            continue
+        tails = [c for c in f.calls() if re.search(r"native::convolution_by_\w+$", c.name or "")]
+        if not tails:
+            continue
+        n += 1
+        rep.touch(f)
+        sym = Sym(f)
+        blocked = set()
+        for c in tails:
+            for s_ in f.succ[c.bb]:
+                blocked.add((c.bb, s_))
+        for (p_, s_, cond, v_) in sym.edge_facts():
+            cs = fmt(cond)
+            if ("is_empty" in cs and v_ is True) or (re.search(r"\blen\b.* Eq 0", cs) and v_ is True) \
+                    or (re.search(r"\blen\b.* (Ne|Gt) 0", cs) and v_ is False):
+                blocked.add((p_, s_))
+        path = find_path_consistent(f, 0, f.returns(), blocked=set(), blocked_edges=blocked)
+        key = "%s|tail" % f.name
+        if path is None:
+            rep.ok(rule, key, f.loc, "the scalar tail is on every path that leaves components unprocessed")
+        else:
+            rep.bad(rule, key + "|bypassed", f.loc,
+                    "%s: a path %s reaches the return without the scalar tail and without a test that "
+                    "nothing is left: the last components of a row can stay unwritten" % (
+                        f.name, "->".join("bb%d" % b for b in path[:10])))
+    rep.floor(rule, "SIMD vertical kernels with a scalar tail", n, floor)
